@@ -15,7 +15,7 @@ package absnfs
 //@ func DirCache.updateAccessLog
 //@ prop C21
 //@ requires dcShape(c) && (has(c.entries, path) ==> c.entries[path] != nil)
-//@ modifies lmem, lrank, llen, CachedDirEntry.listElement
+//@ modifies lmem[c.accessList], lrank[c.accessList], llen[c.accessList], CachedDirEntry.listElement
 // present with an element: it becomes the most recent; present without: a fresh element carrying path is pushed
 //@ ensures [absent-noop] !has(c.entries, path) ==> lmem == old(lmem) && lrank == old(lrank) && llen == old(llen) && forall(x, *CachedDirEntry, x.listElement == old(x.listElement), x.listElement)
 //@ ensures [moved] has(c.entries, path) && old(c.entries[path].listElement) != nil ==> lmem == old(lmem) && llen == old(llen) && forall(x, *CachedDirEntry, x.listElement == old(x.listElement), x.listElement) && forall(e, mathint, e != c.entries[path].listElement ==> lrank[c.accessList][e] == old(lrank[c.accessList][e])) && (lmem[c.accessList][c.entries[path].listElement] ==> forall(e, mathint, lmem[c.accessList][e] && e != c.entries[path].listElement ==> lrank[c.accessList][c.entries[path].listElement] > lrank[c.accessList][e]))
@@ -25,7 +25,7 @@ package absnfs
 //@ func DirCache.removeFromAccessList
 //@ prop C21
 //@ requires dcShape(c) && (has(c.entries, path) ==> c.entries[path] != nil)
-//@ modifies lmem, llen, CachedDirEntry.listElement
+//@ modifies lmem[c.accessList], llen[c.accessList], CachedDirEntry.listElement
 //@ ensures [noop] !has(c.entries, path) || old(c.entries[path].listElement) == nil ==> lmem == old(lmem) && llen == old(llen) && forall(x, *CachedDirEntry, x.listElement == old(x.listElement), x.listElement)
 //@ ensures [removed] has(c.entries, path) && old(c.entries[path].listElement) != nil ==> c.entries[path].listElement == nil && !lmem[c.accessList][old(c.entries[path].listElement)] && forall(e, mathint, e != old(c.entries[path].listElement) ==> lmem[c.accessList][e] == old(lmem[c.accessList][e])) && llen[c.accessList] == old(llen[c.accessList]) - ite(old(lmem[c.accessList][c.entries[path].listElement]), 1, 0) && forall(x, *CachedDirEntry, x != c.entries[path] ==> x.listElement == old(x.listElement), x.listElement)
 //@ ensures [other-lists] listFrame2(c.accessList)
@@ -33,7 +33,7 @@ package absnfs
 //@ func DirCache.Invalidate
 //@ prop C21
 //@ requires dcInv(c)
-//@ modifies mapof(c.entries), lmem, llen, CachedDirEntry.listElement, locks
+//@ modifies mapof(c.entries), lmem[c.accessList], llen[c.accessList], CachedDirEntry.listElement, locks
 //@ ensures [gone] !has(c.entries, path) && forall(q, string, q != path ==> has(c.entries, q) == old(has(c.entries, q)) && c.entries[q] == old(c.entries[q]))
 //@ ensures [inv-shape] dcShape(c)
 //@ ensures [inv-fwd] dcFwd(c)
@@ -45,7 +45,7 @@ package absnfs
 //@ func DirCache.Put
 //@ prop C21
 //@ requires dcInv(c)
-//@ modifies mapof(c.entries), lmem, lrank, llen, CachedDirEntry.listElement, clock, locks
+//@ modifies mapof(c.entries), lmem[c.accessList], lrank[c.accessList], llen[c.accessList], CachedDirEntry.listElement, clock, locks
 //@ ensures [oversized-not-stored] len(entries) > c.maxDirSize ==> mapsame(c.entries) && lmem == old(lmem) && lrank == old(lrank) && llen == old(llen)
 //@ ensures [stored-copy] len(entries) <= c.maxDirSize ==> has(c.entries, path) && c.entries[path] != nil && len(c.entries[path].entries) == len(entries) && (len(entries) > 0 ==> fresh(c.entries[path].entries)) && forall(a, off(c.entries[path].entries), off(c.entries[path].entries) + len(entries), absidx(c.entries[path].entries, a) == entries[a - off(c.entries[path].entries)], absidx(c.entries[path].entries, a))
 //@ ensures [expiry] len(entries) <= c.maxDirSize ==> tsec(c.entries[path].validUntil) == clock + real(c.timeout) / 1000000000.0
@@ -88,7 +88,7 @@ package absnfs
 //@ func DirCache.Resize
 //@ prop C21
 //@ requires dcInv(c)
-//@ modifies c.maxEntries, mapof(c.entries), lmem, llen, locks
+//@ modifies c.maxEntries, mapof(c.entries), lmem[c.accessList], llen[c.accessList], locks
 //@ ensures [size] c.maxEntries == ite(newMaxEntries <= 0, 1000, newMaxEntries)
 //@ ensures [capacity] len(c.entries) <= c.maxEntries
 //@ ensures [inv-shape] dcShape(c)
